@@ -62,8 +62,8 @@ def discover():
                     ent = ent.strip()
                     if not ent:
                         continue
-                    attrs = re.findall(r'#\[(.*?)\]\s*(?=#\[|\w+$)', ent, re.S)
-                    name = re.sub(r'#\[.*\]', '', ent, flags=re.S).strip()
+                    attrs = re.findall(r'#\[((?:[^\[\]]|\[[^\]]*\])*)\]', ent)
+                    name = re.sub(r'#\[((?:[^\[\]]|\[[^\]]*\])*)\]', '', ent).strip()
                     if not re.match(r'^\w+$', name):
                         raise SystemExit(f'cannot parse harness entry in {f}: {ent!r}')
                     out.append(dict(name=name, unit=unit, full=f'{modpath}::{name}', file=f, attrs=attrs,
@@ -156,7 +156,7 @@ def kani_build(unit, u):
 
 
 # ---- running and parsing one harness ----------------------------------------------------
-CHECK_RE = re.compile(r'^Check (\d+): (\S+)\n\s+- Status: (\w+)\n\s+- Description: "(.*)"\n(?:\s+- Location: (.*)\n)?', re.M)
+CHECK_RE = re.compile(r'^Check (\d+): (.+)\n\s+- Status: (\w+)\n\s+- Description: "(.*)"\n(?:\s+- Location: (.*)\n)?', re.M)
 
 
 def parse_kani(out):
@@ -201,7 +201,8 @@ def classify(pr, rc):
     undet = [c for c in checks if c['status'] == 'UNDETERMINED']
     if undet:
         return 'undecided', f'{len(undet)} checks undetermined'
-    covers = [c for c in checks if c['status'] in ('SATISFIED', 'UNSATISFIABLE', 'UNREACHABLE') and '.cover.' in c['id']]
+    covers = [c for c in checks if c['status'] in ('SATISFIED', 'UNSATISFIABLE', 'UNREACHABLE') and '.cover.' in c['id']
+              and not IS_CEX(c['desc'])]
     bad = [c for c in covers if c['status'] != 'SATISFIED']
     if bad:
         return 'undecided', 'vacuity witness not reachable: ' + '; '.join(c['desc'] for c in bad)[:300]
@@ -223,6 +224,12 @@ def run_harness(h, u, tmo, mem_gb, playback=False):
 
 
 HARNESS_ARGS = {}
+
+
+def IS_CEX(desc):
+    """cover goals that are the negation of a vcheck! assertion carry the assertion's id (cNN.…)"""
+    return re.match(r'^"?c\d\d\.', desc) is not None
+
 
 PLAYBACK_RE = re.compile(
     r'/// Check for `(\w+)`: "(.*?)"\n.*?let concrete_vals: Vec<Vec<u8>> = vec!\[(.*?)\n    \];', re.S)
@@ -300,9 +307,9 @@ def match_known(known, prop, harness, replay):
 
 
 # ---- per-property plan ----------------------------------------------------------------------
-TIMEOUTS = {'quick': 420, 'thorough': 3600}
+TIMEOUTS = {'quick': 600, 'thorough': 3600}
 MEM_GB = {'quick': 10, 'thorough': 16}
-SAMPLE_K = 12  # how many `s`-tier (enumerated instance) harnesses the quick tier runs, chosen by VERIF_SEED
+SAMPLE_K = {'C12': 6}  # how many `s`-tier (enumerated instance) harnesses the quick tier runs (default 12), chosen by VERIF_SEED
 PROP_BUDGET = {'quick': 900, 'thorough': 3 * 3600}
 
 
@@ -317,7 +324,7 @@ def select(all_h, prop, tier, seed, only=None):
     if s:
         import random
         rnd = random.Random(seed)
-        k = min(SAMPLE_K, len(s))
+        k = min(SAMPLE_K.get(prop, 12), len(s))
         q += rnd.sample(s, k)
     return q
 
@@ -364,24 +371,33 @@ def check_property(prop, tier, seed, only=None, jobs=None):
             r['wall'] += round(dt2, 1)
             pbs = parse_playback(out2)
             fail_descs = {c['desc'] for c in pr['checks'] if c['status'] == 'FAILURE'}
+            # Kani prints one playback test per failed check / satisfied cover but merges tests whose values are
+            # identical, so the label is not reliable: replay EVERY distinct value set natively and keep those on
+            # which the real build misbehaves.
+            seen_vals = set()
             for pb in pbs:
-                if pb['kind'] == 'cover':
+                key = json.dumps(pb['vals'])
+                if key in seen_vals:
                     continue
-                if pb['desc'] not in fail_descs and pb['desc'].strip('"') not in {d.strip('"') for d in fail_descs}:
-                    continue
-                hid = hashlib.sha1(json.dumps(pb['vals']).encode()).hexdigest()[:10]
+                seen_vals.add(key)
+                hid = hashlib.sha1(key.encode()).hexdigest()[:10]
                 d = os.path.join(VERIF, 'replays', prop)
                 os.makedirs(d, exist_ok=True)
                 path = os.path.join(d, f'{h["name"]}-{hid}.json')
-                rep = dict(property=prop, harness=h['name'], kani_check=pb['desc'], vals=pb['vals'])
+                rep = dict(property=prop, harness=h['name'], kani_check=pb['desc'].strip('"'), kani_kind=pb['kind'], vals=pb['vals'])
                 json.dump(rep, open(path, 'w'))
                 nat = native_replay(h['name'], path)
                 rep['native'] = nat
                 json.dump(rep, open(path, 'w'), indent=1)
-                r['cex'].append(dict(path=path, kani_check=pb['desc'], native=nat))
+                if any(n.get('verdict') in REPRO for n in nat):
+                    r['cex'].append(dict(path=path, kani_check=rep['kani_check'], native=nat))
+                else:
+                    r.setdefault('nonrepro', []).append(dict(path=path, kani_check=rep['kani_check'], native=nat))
+                    if pb['kind'] == 'cover' and not IS_CEX(pb['desc']):
+                        os.remove(path)
             if not r['cex']:
                 r['status'] = 'undecided'
-                r['detail'] = 'counterexample reported but no concrete playback values could be extracted: ' + detail
+                r['detail'] = ('counterexample-did-not-replay (%d value sets tried natively): ' % len(seen_vals)) + detail
         return r
 
     print(f'[run] {prop} tier={tier} seed={seed}: {len(hs)} harnesses, {jobs} parallel, {tmo}s/{mem}GB each')
@@ -472,7 +488,7 @@ def write_evidence(prop, tier, seed, results, t0, note=None, build_info=None, vi
             # satisfied cover witness; automatically generated overflow/bounds checks are not counted here
             if c['status'] in ('SUCCESS', 'FAILURE') and re.match(r'^"?c\d\d\.', c['desc']):
                 nontrivial.add((h['name'], c['desc']))
-            if c['status'] == 'SATISFIED':
+            if c['status'] == 'SATISFIED' and not IS_CEX(c['desc']):
                 nontrivial.add((h['name'], 'cover:' + c['desc']))
         solver_s += pr.get('time') or 0.0
         for e in h['encodes']:
@@ -485,7 +501,7 @@ def write_evidence(prop, tier, seed, results, t0, note=None, build_info=None, vi
         s = dict(harness=h['full'], unit=h['unit'], verdict=r['status'], detail=r['detail'][:300], wall_s=r['wall'],
                  cbmc_s=pr.get('time'), checks=len(pr['checks']),
                  failed_checks=sorted({c['desc'] for c in pr['checks'] if c['status'] == 'FAILURE'})[:6],
-                 covers_satisfied=len([c for c in pr['checks'] if c['status'] == 'SATISFIED']),
+                 covers_satisfied=len([c for c in pr['checks'] if c['status'] == 'SATISFIED' and not IS_CEX(c['desc'])]),
                  unwind=[a for a in h['attrs'] if 'unwind' in a], bound=h['bounds'])
         if r['cex']:
             s['counterexamples'] = [dict(replay=c['path'], kani_check=c['kani_check'],
